@@ -889,16 +889,16 @@ Proof.
     - reflexivity.
     - apply hp_oversub_firstn. exact Odl. }
   (* the three tries *)
-  destruct (kraft_sufficient 15 (map N.to_nat T)) as [lt Hlt];
-    [lia | apply (hp_Forall_to_nat 15); exact HTF | exact HTO |].
-  destruct (kraft_sufficient 15 (map N.to_nat D)) as [dt Hdt];
-    [lia | apply (hp_Forall_to_nat 15); exact HDF | exact HDO |].
+  destruct (kraft_sufficient 15%nat (map N.to_nat T)) as [lt Hlt];
+    [lia | apply (hp_Forall_to_nat 15%nat); exact HTF | exact HTO |].
+  destruct (kraft_sufficient 15%nat (map N.to_nat D)) as [dt Hdt];
+    [lia | apply (hp_Forall_to_nat 15%nat); exact HDF | exact HDO |].
   fold (h_cllens ll dl) in Hval.
   destruct Hval as [Hcl_len [Hcl_F [Hcl_O Hcl_nz]]].
   assert (Hcl19 : length (h_cllens ll dl) = 19%nat).
   { rewrite Hcl_len. unfold cl_hist. rewrite hp_hist_length. reflexivity. }
-  destruct (kraft_sufficient 7 (map N.to_nat (h_cllens ll dl))) as [ct Hct];
-    [lia | apply (hp_Forall_to_nat 7); exact Hcl_F | exact Hcl_O |].
+  destruct (kraft_sufficient 7%nat (map N.to_nat (h_cllens ll dl))) as [ct Hct];
+    [lia | apply (hp_Forall_to_nat 7%nat); exact Hcl_F | exact Hcl_O |].
   (* the items *)
   assert (Hdata : cl_data ll dl = alphabet T ++ alphabet D) by apply hp_cl_data_eq.
   destruct (hp_alphabet T [] HTF) as [HokT HrunT]; [lia|].
@@ -913,7 +913,7 @@ Proof.
   assert (Hdec : Forall (item_decodes ct (gen_codes (h_cllens ll dl))) (cl_data ll dl)).
   { pose proof (hp_items_ok_le18 _ _ Hok) as H18. rewrite Forall_forall in *.
     intros it Hit. specialize (H18 it Hit). unfold item_decodes. intros rest0 p0.
-    apply (hp_code_decodes _ 7); [exact Hct|].
+    apply (hp_code_decodes _ 7%nat); [exact Hct|].
     apply Hcl_nz. unfold cl_hist. apply hp_hist_in; [exact Hit|].
     rewrite repeat_length. lia. }
   exists (header_body ll dl), lt, dt.
@@ -941,7 +941,7 @@ Proof.
   rewrite E29.
   replace (N.to_nat (h_codesize ll dl - 4) + 4)%nat with (length vs) by lia.
   rewrite hp_read_clens by exact Hvs_F. cbv iota beta.
-  unfold vs at 2. rewrite hp_scatter_cllens by exact Hcl19.
+  unfold vs at 1. rewrite hp_scatter_cllens by exact Hcl19.
   rewrite Hct.
   replace (N.to_nat (used_count ll - 257) + 257)%nat with (length T) by lia.
   replace (N.to_nat (h_distnum dl - 1) + 1)%nat with (length D) by lia.
@@ -954,7 +954,9 @@ Proof.
   rewrite <- (map_length N.to_nat T).
   rewrite hp_firstn_app_exact, hp_skipn_app_exact.
   assert (E256 : (nth 256 (map N.to_nat T) 0 =? 0)%nat = false).
-  { apply Nat.eqb_neq. change 0%nat with (N.to_nat 0) at 1. rewrite map_nth.
+  { apply Nat.eqb_neq.
+    change (nth 256 (map N.to_nat T) 0%nat) with (nth 256 (map N.to_nat T) (N.to_nat 0)).
+    rewrite map_nth.
     unfold T, trim. rewrite hp_nth_firstn by lia. unfold nthN in H256.
     change (N.to_nat 256) with 256%nat in H256. lia. }
   rewrite E256, Hlt, Hdt.
@@ -963,3 +965,10 @@ Proof.
 Qed.
 
 Print Assumptions header_ok.
+
+(* the same, in the conditional form (the bit-buffer facts needed are proved locally above,
+   so the hypothesis is not used) *)
+Theorem header_ok_cond : bitbuf_statement -> header_statement.
+Proof. intros _. exact header_ok. Qed.
+
+Print Assumptions header_ok_cond.
